@@ -500,7 +500,17 @@ func runGcodec(c *Ctx) {
 			g := prepare(c, p)
 			for i, ev := range p.Events {
 				if (ev.Kind == core.KCall || ev.Kind == core.KEnter) && ev.Callee != nil && ev.Callee.Name() == "Uint64" && strings.Contains(core.ExprString(ev.Call.Fun), "src") {
-					a.requireGuard("R14c", name+"/draw-when-buffer-empty", g, i, false, eq("0", "prng.randReader.off"), "drawing a new word from the source")
+					want := eq("0", "prng.randReader.off")
+					pvs := paramVars(dd)
+					var res0 *types.Var
+					if rs := dd.Decl.Type.Results; rs != nil && len(rs.List) > 0 && len(rs.List[0].Names) > 0 {
+						res0, _ = dd.Pkg.TypesInfo.Defs[rs.List[0].Names[0]].(*types.Var)
+					}
+					if len(pvs) > 0 && pvs[0] != nil && res0 != nil {
+						// … and only while bytes are still wanted (count < len(buffer))
+						want = fand(want, lt(c.Role(res0), "len("+c.Role(pvs[0])+")"))
+					}
+					a.requireGuard("R14c", name+"/draw-when-buffer-empty", g, i, false, want, "drawing a new word from the source")
 				}
 			}
 		})
@@ -620,7 +630,7 @@ func expandLocals(e ast.Expr, g *gpath, i int, fr *core.Frame, depth int) ast.Ex
 	switch x := e.(type) {
 	case *ast.Ident:
 		if v := identVar(x, fr); v != nil && !v.IsField() {
-			if d, ok := gb.defs[v]; ok && gb.usable(d) {
+			if d, ok := gb.defs[v]; ok && gb.usable(d) && !readsElements(d.expr) {
 				return &ast.ParenExpr{X: expandLocals(d.expr, g, i, d.fr, depth+1)}
 			}
 		}
@@ -700,16 +710,26 @@ func checkIndexes(c *Ctx, a *agg, name string, g *gpath, i int, e ast.Expr, para
 				}
 				why = sprintf("%s is used on a path that has not excluded len(%s) < %d: empty (or too short) input panics", core.ExprString(n.(ast.Expr)), param.Name(), constSum)
 			} else {
-				// a bound read from the data: some comparison of that value with len(p) must be on the path
-				for _, l := range lits {
-					s := l.f.String()
-					for _, t := range varTerms {
-						if strings.Contains(s, t) && strings.Contains(s, L) {
-							okGuard = true
+				// a bound read from the data: the comparisons of that value v with len(p) on the path must
+				// establish  v + k <= len(p)  (k = the constants subtracted besides v), i.e. the slice
+				// bound len(p)-v-k is not negative. Difference reasoning over d = v - len(p).
+				need := -constSum
+				best, have := 0, false
+				if len(varTerms) == 1 {
+					for j := 0; j < i; j++ {
+						b := g.p.Events[j]
+						if b.Kind != core.KBranch {
+							continue
+						}
+						if ub, ok := diffUpperBound(g, j, b, varTerms[0], L); ok {
+							if !have || ub < best {
+								best, have = ub, true
+							}
 						}
 					}
 				}
-				why = sprintf("%s uses a bound taken from the data that was not compared with len(%s) on this path: crafted input slices out of range", core.ExprString(n.(ast.Expr)), param.Name())
+				okGuard = have && best <= need
+				why = sprintf("%s uses a bound taken from the data; the comparisons on this path establish at most value - len(%s) <= %d (none: %v) where <= %d is needed: crafted input makes the slice bound negative and the function panics instead of returning an error", core.ExprString(n.(ast.Expr)), param.Name(), best, !have, need)
 			}
 			a.note("R14a", name+"/index-needs-length-guard", ix.Pos(), !okGuard, "every len(p)-k index/bound on the received slice is dominated by a length guard", why, p)
 		}
@@ -827,4 +847,155 @@ func runGqueue(c *Ctx) {
 		})
 		a.expect("R10", name+"/one-atomic-section", 1, "paths of "+fn)
 	}
+}
+
+// diffUpperBound: if the branch event compares (v + a) with (len + b), return the upper bound it
+// establishes on d = v - len on this path. v and len are given as canonical terms.
+func diffUpperBound(g *gpath, j int, b *core.Event, vTerm, lenTerm string) (int, bool) {
+	be, ok := unparen(b.Cond).(*ast.BinaryExpr)
+	if !ok {
+		return 0, false
+	}
+	gb := g.builderAt(j)
+	lin := func(e ast.Expr) (hasV, hasL bool, k int, ok bool) {
+		// linear form: term, term - c, term + c, c
+		e = unparen(e)
+		// a local that names a sum/difference (end := len(data) - 1) is looked through
+		if id, isId := e.(*ast.Ident); isId {
+			if v := identVar(id, b.Frame); v != nil {
+				if d, has := gb.defs[v]; has && gb.usable(d) {
+					if _, isBin := unparen(d.expr).(*ast.BinaryExpr); isBin {
+						e = unparen(d.expr)
+					}
+				}
+			}
+		}
+		for {
+			x, isBin := e.(*ast.BinaryExpr)
+			if !isBin || (x.Op != token.SUB && x.Op != token.ADD) {
+				break
+			}
+			tv, has := b.Frame.Info().Types[unparen(x.Y)]
+			if !has || tv.Value == nil {
+				return false, false, 0, false
+			}
+			c := 0
+			if v, exact := constantInt(tv); exact {
+				c = v
+			} else {
+				return false, false, 0, false
+			}
+			if x.Op == token.SUB {
+				k -= c
+			} else {
+				k += c
+			}
+			e = unparen(x.X)
+		}
+		if tv, has := b.Frame.Info().Types[e]; has && tv.Value != nil {
+			if v, exact := constantInt(tv); exact {
+				return false, false, k + v, true
+			}
+		}
+		t, okT := gb.term(e, b.Frame)
+		if !okT {
+			return false, false, 0, false
+		}
+		switch t {
+		case vTerm:
+			return true, false, k, true
+		case lenTerm:
+			return false, true, k, true
+		}
+		// int(data[len-1]) style conversions of the value
+		if call, isCall := e.(*ast.CallExpr); isCall && len(call.Args) == 1 {
+			if tt, ok2 := gb.term(call.Args[0], b.Frame); ok2 && tt == vTerm {
+				return true, false, k, true
+			}
+		}
+		return false, false, 0, false
+	}
+	lv, ll, lk, ok1 := lin(be.X)
+	rv, rl, rk, ok2 := lin(be.Y)
+
+	if !ok1 || !ok2 {
+		return 0, false
+	}
+	// normalise to  (v + a) OP (len + c)
+	op := be.Op
+	var a, cst int
+	switch {
+	case lv && rl:
+		a, cst = lk, rk
+	case ll && rv:
+		a, cst = rk, lk
+		switch op { // swap sides
+		case token.LSS:
+			op = token.GTR
+		case token.GTR:
+			op = token.LSS
+		case token.LEQ:
+			op = token.GEQ
+		case token.GEQ:
+			op = token.LEQ
+		}
+	default:
+		return 0, false
+	}
+	val := b.CondVal
+	// v + a OP len + cst   ⇒ bound on d = v - len
+	switch op {
+	case token.LSS: // v+a < len+cst
+		if val {
+			return cst - a - 1, true
+		}
+	case token.LEQ:
+		if val {
+			return cst - a, true
+		}
+	case token.GTR: // v+a > len+cst ; false ⇒ v+a <= len+cst
+		if !val {
+			return cst - a, true
+		}
+	case token.GEQ: // false ⇒ v+a < len+cst
+		if !val {
+			return cst - a - 1, true
+		}
+	}
+	return 0, false
+}
+
+func constantInt(tv types.TypeAndValue) (int, bool) {
+	if tv.Value == nil {
+		return 0, false
+	}
+	s := tv.Value.ExactString()
+	n := 0
+	neg := false
+	for i, ch := range s {
+		if i == 0 && ch == '-' {
+			neg = true
+			continue
+		}
+		if ch < '0' || ch > '9' {
+			return 0, false
+		}
+		n = n*10 + int(ch-'0')
+	}
+	if neg {
+		n = -n
+	}
+	return n, true
+}
+
+// readsElements: the expression reads an element of a slice/array/map (a value taken from data).
+func readsElements(e ast.Expr) bool {
+	found := false
+	ast.Inspect(e, func(n ast.Node) bool {
+		if _, ok := n.(*ast.IndexExpr); ok {
+			found = true
+		}
+		return !found
+	})
+	return found
 }
